@@ -193,4 +193,591 @@ Proof. reflexivity. Qed.
 Lemma tail_ok c3 s3 fr wc : tail (c3, s3, None) fr wc = after_frame cfg c3 s3 fr wc.
 Proof. reflexivity. Qed.
 
+(* ---------- everything known when a frame reaches handleFrame ---------- *)
+
+Record kin c (s : RS.state) (ph : N -> RS.phase) (fr : sframe) (ec' : N) (c2 : sconn) (st : stream) (l' h' : N) : Prop := {
+  K_S : Sim c s ph;
+  K_sl : sc_sl_done c = false;
+  K_sq : seq_ok c fr ec';
+  K_od : N.odd (sf_sid fr) = true;
+  K_base : base c fr (sc_strms c2) l' h';
+  K_ctx : kctx c ec' l' h' c2;
+  K_f : sfacts c s ph fr st l' h'
+}.
+
+Lemma kin_wr c s ph fr ec' c2 st l' h' : kin c s ph fr ec' c2 st l' h' -> sc_sl_done c2 = false /\ sc_wl_dead c2 = false.
+Proof.
+  intros [HS Hsl _ _ _ (K1 & K2 & K3 & K4 & K5 & K6 & K7 & K8 & K9 & K10 & K11 & K12) _].
+  pose proof (S_aux _ _ _ _ HS) as [AT _]. rewrite K8, K6. split; [exact Hsl | apply (A_wl _ _ AT)].
+Qed.
+
+(* outside a header block (every frame but CONTINUATION): block is None, ec' is settled *)
+Lemma kin_noblock c s ph fr ec' c2 st l' h' : kin c s ph fr ec' c2 st l' h' -> sf_kind fr <> KCont ->
+  RS.block s = None /\ sc_expectCont c = 0 /\ ec' = (if fkind_eqb (sf_kind fr) KHeaders && negb (flag_has (sf_flags fr) FL_EH) then sf_sid fr else 0).
+Proof.
+  intros KI K. destruct (K_sq _ _ _ _ _ _ _ _ _ KI) as [(E0 & _ & E)|(_ & K' & _)]; [|congruence].
+  split; [|auto]. rewrite (block_of_ec hstate c s (S_blk _ _ _ _ (K_S _ _ _ _ _ _ _ _ _ KI))), E0. reflexivity.
+Qed.
+
+(* a stream of the table that is outside a header block has all its headers *)
+Lemma kin_fin c s ph fr ec' c2 st l' h' : kin c s ph fr ec' c2 st l' h' -> sf_kind fr <> KCont -> st_state st <> SIdle ->
+  st_headersFinished st = true.
+Proof.
+  intros KI K NI. destruct (kin_noblock _ _ _ _ _ _ _ _ _ KI K) as (_ & E0 & _).
+  destruct (F_h2 _ _ _ _ _ _ _ (K_f _ _ _ _ _ _ _ _ _ KI) NI) as (_ & _ & _ & A & _).
+  destruct (st_headersFinished st); [reflexivity|]. specialize (A eq_refl). rewrite E0 in A.
+  pose proof (K_od _ _ _ _ _ _ _ _ _ KI) as O. rewrite A in O. discriminate.
+Qed.
+
+Lemma K_data c s ph fr ec' c2 st l' h' :
+  kin c s ph fr ec' c2 st l' h' -> sf_kind fr = KData ->
+  feed c (IIn (RFrame fr)) = fst (tail (handle_frame dec_field cfg c2 st fr) fr (sc_closing c)) ->
+  G c s ph (RFrame fr) (feed c (IIn (RFrame fr))).
+Proof.
+  intros KI KK E. pose proof KI as [HS Hsl SQ Od HB KC SF].
+  destruct (kin_wr _ _ _ _ _ _ _ _ _ KI) as [Sl2 Wl2].
+  assert (NC : sf_kind fr <> KCont) by congruence.
+  destruct (kin_noblock _ _ _ _ _ _ _ _ _ KI NC) as (BN & E0 & EC). rewrite KK in EC. cbn [fkind_eqb andb] in EC.
+  assert (Znn : sf_sid fr <> 0) by (intro Z; rewrite Z in Od; discriminate).
+  assert (V : RS.verdicts s (RS.Frame (abs_frame fr)) = RS.on_stream s (abs_frame fr)) by (apply verdicts_stream; [exact BN | exact Znn | rewrite KK; exact I]).
+  destruct (handle_frame dec_field cfg c2 st fr) as [[c3 s3] e] eqn:HF.
+  pose proof (handle_frame_eff hstate dec_field cfg c2 st fr c3 s3 e Sl2 Wl2 HF) as HE.
+  assert (NI : st_state st <> SIdle).
+  { intro X. destruct (F_h1 _ _ _ _ _ _ _ SF X) as (_ & _ & _ & KH & _). congruence. }
+  pose proof (kin_fin _ _ _ _ _ _ _ _ _ KI NC NI) as Fin.
+  destruct (F_h2 _ _ _ _ _ _ _ SF NI) as (Hh & Tb & Hph & _).
+  unfold handle_frame, verify_state in HF. rewrite KK in HF. cbn [fkind_eqb orb andb] in HF. unfold continuing_headers in HF. rewrite KK in HF. cbn [fkind_eqb andb] in HF.
+  destruct (F_state _ _ _ _ _ _ _ SF) as [X|[X|X]]; [congruence | |]; rewrite X in HF; cbn [sstate_rank N.leb] in HF.
+  - (* open *)
+    assert (Xo : RS.st_of s (sf_sid fr) = RS.Open) by (rewrite (F_x _ _ _ _ _ _ _ SF), X; reflexivity).
+    rewrite Fin in HF. cbn [negb] in HF. replace (3 <=? 2) with false in HF by reflexivity.
+    match type of HF with (if ?b then _ else _) = _ => destruct b eqn:OV end; injection HF as Ec Es Ee; subst e.
+    + (* body too large: RST_STREAM(ENHANCE_YOUR_CALM) *)
+      assert (Id3 : st_id s3 = sf_sid fr) by (rewrite <- Es; apply (F_id _ _ _ _ _ _ _ SF)).
+      rewrite tail_reset, Id3 in E.
+      assert (A1 : RS.st_of s (sf_sid fr) = RS.Open \/ RS.st_of s (sf_sid fr) = RS.HalfClosedRemote \/
+                   (RS.st_of s (sf_sid fr) = RS.Idle /\ sf_kind fr = KHeaders)) by (left; exact Xo).
+      assert (A2 : RS.st_of s (sf_sid fr) = RS.Idle -> h' = sf_sid fr /\ sc_highestID c < sf_sid fr) by (intro Y; congruence).
+      assert (A3 : RS.st_of s (sf_sid fr) <> RS.Idle -> h' = sc_highestID c) by (intros _; exact Hh).
+      assert (A4 : send_ok s3) by (rewrite <- Es; exact (F_send _ _ _ _ _ _ _ SF)).
+      assert (A5 : st_headersFinished s3 = false \/ sc_discardID c3 = sc_discardID c).
+      { right. rewrite <- Ec. destruct KC as (_ & _ & _ & _ & _ & _ & _ & _ & _ & _ & K11 & _). sc_rw. exact K11. }
+      assert (A6 : ec' <> 0 -> st_headersFinished s3 = false) by (intro Hne; congruence).
+      assert (A7 : RS.allowed s (RS.Frame (abs_frame fr)) (RS.StreamErr c_EnhanceYourCalm) = true) by (apply policy_allowed; auto; congruence).
+      assert (A8 : sf_kind fr <> KRst) by congruence.
+      exact (after_reset hstate dec_field enc_field enc_set_max cfg c s ph fr ec' c2 l' h' c3 s3 c_EnhanceYourCalm HS Hsl SQ Od HB KC HE Id3 A1 A2 A3 A4 A5 A6 A7 A8 E).
+    + (* accepted *)
+      assert (Id3 : st_id s3 = sf_sid fr) by (rewrite <- Es; apply (F_id _ _ _ _ _ _ _ SF)).
+      rewrite tail_ok in E.
+      assert (B1 : sc_discardID c3 = sc_discardID c).
+      { rewrite <- Ec. destruct KC as (_ & _ & _ & _ & _ & _ & _ & _ & _ & _ & K11 & _). sc_rw. exact K11. }
+      assert (B2 : (st_state s3 = SIdle /\ sf_kind fr = KHeaders) \/ st_state s3 = SOpen \/ st_state s3 = SHalfClosed) by (rewrite <- Es; cbn; auto).
+      assert (B3 : RS.st_of s (sf_sid fr) = abs_st (st_state s3)) by (rewrite <- Es; cbn; rewrite X; exact Xo).
+      assert (B4 : st_state s3 = SIdle -> h' = sf_sid fr /\ sc_highestID c < sf_sid fr) by (rewrite <- Es; cbn; intro Y; congruence).
+      assert (B5 : st_state s3 <> SIdle -> h' = sc_highestID c) by (intros _; exact Hh).
+      assert (B6 : st_weReset s3 = false) by (rewrite <- Es; exact (F_wr _ _ _ _ _ _ _ SF)).
+      assert (B7 : st_responded s3 = true \/ st_handlerRunning s3 = true -> st_state s3 = SHalfClosed /\ st_headersFinished s3 = true)
+        by (rewrite <- Es; exact (F_resp _ _ _ _ _ _ _ SF)).
+      assert (B8 : send_ok s3) by (rewrite <- Es; exact (F_send _ _ _ _ _ _ _ SF)).
+      assert (B9 : RS.may_process s (RS.Frame (abs_frame fr)) = true).
+      { unfold RS.may_process. rewrite V. unfold RS.on_stream, RS.by_state. change (RS.f_sid (abs_frame fr)) with (sf_sid fr). rewrite Xo.
+        unfold abs_frame. cbn [RS.f_kind]. rewrite KK. reflexivity. }
+      assert (B10 : st_headersFinished s3 = false -> ec' = sf_sid fr) by (rewrite <- Es; cbn; rewrite Fin; discriminate).
+      assert (B11 : ec' <> 0 -> st_headersFinished s3 = false) by (intro Hne; congruence).
+      assert (B12 : st_state (handle_state fr s3) <> SClosed -> RS.request_step (ph (sf_sid fr)) (abs_frame fr) = phase_of (handle_state fr s3)).
+      { intros _. rewrite Hph, phase_of_handle, <- Es. cbn [st_state st_headersFinished set_recv].
+        unfold phase_of, hs_state, abs_frame, RS.request_step. cbn [RS.f_kind RS.f_es]. rewrite KK, X, Fin. cbn.
+        destruct (flag_has (sf_flags fr) FL_ES); reflexivity. }
+      assert (B13 : sf_kind fr = KRst -> st_responded s3 = true -> st_handlerRunning s3 = false -> has_more_to_send s3 = true ->
+                    known_deviation hstate c s (RFrame fr) = true) by (intro Y; congruence).
+      exact (after_ok hstate dec_field enc_field enc_set_max cfg c s ph fr ec' c2 l' h' c3 s3 HS Hsl SQ Od HB KC HE B1 Id3 B2 B3 B4 B5 B6 B7 B8 V B9 B10 B11 B12 B13 E).
+  - (* half-closed (remote): STREAM_CLOSED *)
+    injection HF as Ec Es Ee; subst e.
+    rewrite tail_goaway in E by discriminate. rewrite <- Es, (F_id _ _ _ _ _ _ _ SF) in E.
+    apply (known_goaway c s ph fr ec' c2 l' h' c3 _ _ HS Hsl KC HE E).
+    left. apply allowed_table. rewrite V. unfold RS.on_stream, RS.by_state. change (RS.f_sid (abs_frame fr)) with (sf_sid fr).
+    rewrite (F_x _ _ _ _ _ _ _ SF), X. unfold abs_frame. cbn [RS.f_kind abs_st]. rewrite KK. reflexivity.
+Qed.
+
+(* shared preamble for frames that are not part of a header block, on a stream of the table *)
+Lemma kin_plain c s ph fr ec' c2 st l' h' :
+  kin c s ph fr ec' c2 st l' h' -> sf_kind fr <> KCont -> sf_kind fr <> KHeaders ->
+  sc_sl_done c2 = false /\ sc_wl_dead c2 = false /\ RS.block s = None /\ ec' = 0 /\ sf_sid fr <> 0 /\
+  st_state st <> SIdle /\ st_headersFinished st = true /\ h' = sc_highestID c /\ tbl c (sf_sid fr) = Some st /\
+  ph (sf_sid fr) = phase_of st /\ sc_discardID c2 = sc_discardID c /\
+  ((st_state st = SOpen /\ RS.st_of s (sf_sid fr) = RS.Open) \/ (st_state st = SHalfClosed /\ RS.st_of s (sf_sid fr) = RS.HalfClosedRemote)).
+Proof.
+  intros KI NC NH. pose proof KI as [HS Hsl SQ Od HB KC SF].
+  destruct (kin_wr _ _ _ _ _ _ _ _ _ KI) as [Sl2 Wl2].
+  destruct (kin_noblock _ _ _ _ _ _ _ _ _ KI NC) as (BN & E0 & EC).
+  apply fkind_eqb_neq in NH. rewrite NH in EC. cbn [andb] in EC.
+  assert (NI : st_state st <> SIdle).
+  { intro X. destruct (F_h1 _ _ _ _ _ _ _ SF X) as (_ & _ & _ & KH & _). apply fkind_eqb_neq in NH. congruence. }
+  destruct (F_h2 _ _ _ _ _ _ _ SF NI) as (Hh & Tb & Hph & _).
+  repeat split; auto.
+  - intro Z. rewrite Z in Od. discriminate.
+  - apply (kin_fin _ _ _ _ _ _ _ _ _ KI NC NI).
+  - destruct KC as (_ & _ & _ & _ & _ & _ & _ & _ & _ & _ & K11 & _). exact K11.
+  - destruct (F_state _ _ _ _ _ _ _ SF) as [X|[X|X]]; [congruence | left | right]; (split; [exact X|]); rewrite (F_x _ _ _ _ _ _ _ SF), X; reflexivity.
+Qed.
+
+Lemma K_rst c s ph fr ec' c2 st l' h' :
+  kin c s ph fr ec' c2 st l' h' -> sf_kind fr = KRst ->
+  feed c (IIn (RFrame fr)) = fst (tail (handle_frame dec_field cfg c2 st fr) fr (sc_closing c)) ->
+  G c s ph (RFrame fr) (feed c (IIn (RFrame fr))).
+Proof.
+  intros KI KK E. pose proof KI as [HS Hsl SQ Od HB KC SF].
+  destruct (kin_plain _ _ _ _ _ _ _ _ _ KI ltac:(congruence) ltac:(congruence)) as (Sl2 & Wl2 & BN & EC & Znn & NI & Fin & Hh & Tb & Hph & DI & XS).
+  assert (V : RS.verdicts s (RS.Frame (abs_frame fr)) = RS.on_stream s (abs_frame fr)) by (apply verdicts_stream; [exact BN | exact Znn | rewrite KK; exact I]).
+  assert (HF : handle_frame dec_field cfg c2 st fr = (c2, st, None)).
+  { unfold handle_frame, verify_state. rewrite KK. cbn [fkind_eqb orb andb]. unfold continuing_headers. rewrite KK. cbn [fkind_eqb andb orb].
+    destruct XS as [[X _]|[X _]]; rewrite X; reflexivity. }
+  rewrite HF, tail_ok in E.
+  assert (B2 : (st_state st = SIdle /\ sf_kind fr = KHeaders) \/ st_state st = SOpen \/ st_state st = SHalfClosed) by (destruct XS as [[X _]|[X _]]; auto).
+  assert (B4 : st_state st = SIdle -> h' = sf_sid fr /\ sc_highestID c < sf_sid fr) by (intro Y; congruence).
+  assert (B5 : st_state st <> SIdle -> h' = sc_highestID c) by (intros _; exact Hh).
+  assert (B9 : RS.may_process s (RS.Frame (abs_frame fr)) = true).
+  { unfold RS.may_process. rewrite V. unfold RS.on_stream, RS.by_state. change (RS.f_sid (abs_frame fr)) with (sf_sid fr).
+    destruct XS as [[_ X]|[_ X]]; rewrite X; unfold abs_frame; cbn [RS.f_kind]; rewrite KK; reflexivity. }
+  assert (B10 : st_headersFinished st = false -> ec' = sf_sid fr) by (rewrite Fin; discriminate).
+  assert (B11 : ec' <> 0 -> st_headersFinished st = false) by (intro Hne; congruence).
+  assert (B12 : st_state (handle_state fr st) <> SClosed -> RS.request_step (ph (sf_sid fr)) (abs_frame fr) = phase_of (handle_state fr st)).
+  { intro Y. exfalso. apply Y. rewrite handle_state_st. unfold hs_state. rewrite KK. reflexivity. }
+  assert (B13 : sf_kind fr = KRst -> st_responded st = true -> st_handlerRunning st = false -> has_more_to_send st = true ->
+                known_deviation hstate c s (RFrame fr) = true).
+  { intros _ R1 R2 R3. unfold known_deviation. rewrite KK. unfold SrvRfcDefs.tbl in Tb. rewrite Tb, R1, R2, R3. reflexivity. }
+  exact (after_ok hstate dec_field enc_field enc_set_max cfg c s ph fr ec' c2 l' h' c2 st HS Hsl SQ Od HB KC (hf_eff_refl hstate c2) DI
+           (F_id _ _ _ _ _ _ _ SF) B2 (F_x _ _ _ _ _ _ _ SF) B4 B5 (F_wr _ _ _ _ _ _ _ SF) (F_resp _ _ _ _ _ _ _ SF) (F_send _ _ _ _ _ _ _ SF)
+           V B9 B10 B11 B12 B13 E).
+Qed.
+
+Lemma K_prio c s ph fr ec' c2 st l' h' :
+  kin c s ph fr ec' c2 st l' h' -> sf_kind fr = KPriority ->
+  feed c (IIn (RFrame fr)) = fst (tail (handle_frame dec_field cfg c2 st fr) fr (sc_closing c)) ->
+  G c s ph (RFrame fr) (feed c (IIn (RFrame fr))).
+Proof.
+  intros KI KK E. pose proof KI as [HS Hsl SQ Od HB KC SF].
+  destruct (kin_plain _ _ _ _ _ _ _ _ _ KI ltac:(congruence) ltac:(congruence)) as (Sl2 & Wl2 & BN & EC & Znn & NI & Fin & Hh & Tb & Hph & DI & XS).
+  assert (V : RS.verdicts s (RS.Frame (abs_frame fr)) = RS.on_stream s (abs_frame fr)) by (apply verdicts_stream; [exact BN | exact Znn | rewrite KK; exact I]).
+  assert (HF : handle_frame dec_field cfg c2 st fr = if sf_dep fr =? sf_sid fr then (c2, st, Some (EGoAway c_ProtocolError)) else (c2, st, None)).
+  { unfold handle_frame, verify_state. rewrite KK. cbn [fkind_eqb orb andb]. unfold continuing_headers. rewrite KK. cbn [fkind_eqb andb orb].
+    rewrite Fin, (F_id _ _ _ _ _ _ _ SF). destruct XS as [[X _]|[X _]]; rewrite X; cbn [sstate_eqb sstate_rank N.eqb negb andb]; reflexivity. }
+  rewrite HF in E. clear HF.
+  destruct (sf_dep fr =? sf_sid fr) eqn:SD.
+  - rewrite tail_goaway in E by discriminate. rewrite (F_id _ _ _ _ _ _ _ SF) in E.
+    apply (known_goaway c s ph fr ec' c2 l' h' c2 _ _ HS Hsl KC (hf_eff_refl hstate c2) E).
+    left. apply allowed_table. rewrite V. unfold RS.on_stream, RS.by_state, RS.priority_frame. change (RS.f_sid (abs_frame fr)) with (sf_sid fr).
+    destruct XS as [[_ X]|[_ X]]; rewrite X; unfold abs_frame; cbn [RS.f_kind RS.f_self]; rewrite KK, SD; reflexivity.
+  - rewrite tail_ok in E.
+    assert (B2 : (st_state st = SIdle /\ sf_kind fr = KHeaders) \/ st_state st = SOpen \/ st_state st = SHalfClosed) by (destruct XS as [[X _]|[X _]]; auto).
+    assert (B4 : st_state st = SIdle -> h' = sf_sid fr /\ sc_highestID c < sf_sid fr) by (intro Y; congruence).
+    assert (B5 : st_state st <> SIdle -> h' = sc_highestID c) by (intros _; exact Hh).
+    assert (B9 : RS.may_process s (RS.Frame (abs_frame fr)) = true).
+    { unfold RS.may_process. rewrite V. unfold RS.on_stream, RS.by_state, RS.priority_frame. change (RS.f_sid (abs_frame fr)) with (sf_sid fr).
+      destruct XS as [[_ X]|[_ X]]; rewrite X; unfold abs_frame; cbn [RS.f_kind RS.f_self]; rewrite KK, SD; reflexivity. }
+    assert (B10 : st_headersFinished st = false -> ec' = sf_sid fr) by (rewrite Fin; discriminate).
+    assert (B11 : ec' <> 0 -> st_headersFinished st = false) by (intro Hne; congruence).
+    assert (B12 : st_state (handle_state fr st) <> SClosed -> RS.request_step (ph (sf_sid fr)) (abs_frame fr) = phase_of (handle_state fr st)).
+    { intros _. rewrite Hph, phase_of_handle. unfold phase_of, hs_state, abs_frame, RS.request_step. cbn [RS.f_kind]. rewrite KK, Fin.
+      destruct XS as [[X _]|[X _]]; rewrite X; reflexivity. }
+    assert (B13 : sf_kind fr = KRst -> st_responded st = true -> st_handlerRunning st = false -> has_more_to_send st = true ->
+                  known_deviation hstate c s (RFrame fr) = true) by (intro Y; congruence).
+    exact (after_ok hstate dec_field enc_field enc_set_max cfg c s ph fr ec' c2 l' h' c2 st HS Hsl SQ Od HB KC (hf_eff_refl hstate c2) DI
+             (F_id _ _ _ _ _ _ _ SF) B2 (F_x _ _ _ _ _ _ _ SF) B4 B5 (F_wr _ _ _ _ _ _ _ SF) (F_resp _ _ _ _ _ _ _ SF) (F_send _ _ _ _ _ _ _ SF)
+             V B9 B10 B11 B12 B13 E).
+Qed.
+
+Lemma K_winupd c s ph fr ec' c2 st l' h' :
+  kin c s ph fr ec' c2 st l' h' -> sf_kind fr = KWinUpd ->
+  feed c (IIn (RFrame fr)) = fst (tail (handle_frame dec_field cfg c2 st fr) fr (sc_closing c)) ->
+  G c s ph (RFrame fr) (feed c (IIn (RFrame fr))).
+Proof.
+  intros KI KK E. pose proof KI as [HS Hsl SQ Od HB KC SF].
+  destruct (kin_plain _ _ _ _ _ _ _ _ _ KI ltac:(congruence) ltac:(congruence)) as (Sl2 & Wl2 & BN & EC & Znn & NI & Fin & Hh & Tb & Hph & DI & XS).
+  assert (V : RS.verdicts s (RS.Frame (abs_frame fr)) = RS.on_stream s (abs_frame fr)) by (apply verdicts_stream; [exact BN | exact Znn | rewrite KK; exact I]).
+  set (w := (st_window st + Z.of_N (sf_inc fr))%Z).
+  assert (HF : handle_frame dec_field cfg c2 st fr =
+               if sf_inc fr =? 0 then (c2, st, Some (EGoAway c_ProtocolError))
+               else if (MAXWIN <? w)%Z then (c2, set_window st w, Some (EReset c_FlowControlError)) else (c2, set_window st w, None)).
+  { unfold handle_frame, verify_state. rewrite KK. cbn [fkind_eqb orb andb]. unfold continuing_headers. rewrite KK. cbn [fkind_eqb andb orb].
+    destruct XS as [[X _]|[X _]]; rewrite X; cbn [sstate_eqb sstate_rank N.eqb]; reflexivity. }
+  rewrite HF in E. clear HF.
+  assert (WUv : RS.on_stream s (abs_frame fr) = RS.window_update (abs_frame fr) ++ RS.policy).
+  { unfold RS.on_stream, RS.by_state. change (RS.f_sid (abs_frame fr)) with (sf_sid fr).
+    destruct XS as [[_ X]|[_ X]]; rewrite X; unfold abs_frame; cbn [RS.f_kind]; rewrite KK; reflexivity. }
+  assert (A1 : RS.st_of s (sf_sid fr) = RS.Open \/ RS.st_of s (sf_sid fr) = RS.HalfClosedRemote \/
+               (RS.st_of s (sf_sid fr) = RS.Idle /\ sf_kind fr = KHeaders)) by (destruct XS as [[_ X]|[_ X]]; auto).
+  assert (A2 : RS.st_of s (sf_sid fr) = RS.Idle -> h' = sf_sid fr /\ sc_highestID c < sf_sid fr) by (intro Y; destruct XS as [[_ X]|[_ X]]; congruence).
+  assert (A3 : RS.st_of s (sf_sid fr) <> RS.Idle -> h' = sc_highestID c) by (intros _; exact Hh).
+  destruct (sf_inc fr =? 0) eqn:I0.
+  - rewrite tail_goaway in E by discriminate. rewrite (F_id _ _ _ _ _ _ _ SF) in E.
+    apply (known_goaway c s ph fr ec' c2 l' h' c2 _ _ HS Hsl KC (hf_eff_refl hstate c2) E).
+    left. apply allowed_table. rewrite V, WUv. unfold RS.window_update, abs_frame. cbn [RS.f_inc]. rewrite I0. reflexivity.
+  - destruct (MAXWIN <? w)%Z eqn:OV.
+    + (* the window overflows: RST_STREAM(FLOW_CONTROL_ERROR) *)
+      rewrite tail_reset in E. cbn [st_id set_window] in E. rewrite (F_id _ _ _ _ _ _ _ SF) in E.
+      assert (A4 : send_ok (set_window st w)) by exact (F_send _ _ _ _ _ _ _ SF).
+      assert (A5 : st_headersFinished (set_window st w) = false \/ sc_discardID c2 = sc_discardID c) by (right; exact DI).
+      assert (A6 : ec' <> 0 -> st_headersFinished (set_window st w) = false) by (intro Hne; congruence).
+      assert (A7 : RS.allowed s (RS.Frame (abs_frame fr)) (RS.StreamErr c_FlowControlError) = true).
+      { apply allowed_table. rewrite V, WUv. unfold RS.window_update, abs_frame. cbn [RS.f_inc]. rewrite I0. reflexivity. }
+      assert (A8 : sf_kind fr <> KRst) by congruence.
+      exact (after_reset hstate dec_field enc_field enc_set_max cfg c s ph fr ec' c2 l' h' c2 (set_window st w) c_FlowControlError
+               HS Hsl SQ Od HB KC (hf_eff_refl hstate c2) (F_id _ _ _ _ _ _ _ SF) A1 A2 A3 A4 A5 A6 A7 A8 E).
+    + rewrite tail_ok in E.
+      assert (B2 : (st_state (set_window st w) = SIdle /\ sf_kind fr = KHeaders) \/ st_state (set_window st w) = SOpen \/ st_state (set_window st w) = SHalfClosed)
+        by (cbn; destruct XS as [[X _]|[X _]]; auto).
+      assert (B4 : st_state (set_window st w) = SIdle -> h' = sf_sid fr /\ sc_highestID c < sf_sid fr) by (cbn; intro Y; congruence).
+      assert (B5 : st_state (set_window st w) <> SIdle -> h' = sc_highestID c) by (intros _; exact Hh).
+      assert (B9 : RS.may_process s (RS.Frame (abs_frame fr)) = true).
+      { unfold RS.may_process. rewrite V, WUv. unfold RS.window_update, abs_frame. cbn [RS.f_inc]. rewrite I0. reflexivity. }
+      assert (B10 : st_headersFinished (set_window st w) = false -> ec' = sf_sid fr) by (cbn; rewrite Fin; discriminate).
+      assert (B11 : ec' <> 0 -> st_headersFinished (set_window st w) = false) by (intro Hne; congruence).
+      assert (B12 : st_state (handle_state fr (set_window st w)) <> SClosed ->
+                    RS.request_step (ph (sf_sid fr)) (abs_frame fr) = phase_of (handle_state fr (set_window st w))).
+      { intros _. rewrite Hph, phase_of_handle. cbn [st_state st_headersFinished set_window].
+        unfold phase_of, hs_state, abs_frame, RS.request_step. cbn [RS.f_kind]. rewrite KK, Fin.
+        destruct XS as [[X _]|[X _]]; rewrite X; reflexivity. }
+      assert (B13 : sf_kind fr = KRst -> st_responded (set_window st w) = true -> st_handlerRunning (set_window st w) = false ->
+                    has_more_to_send (set_window st w) = true -> known_deviation hstate c s (RFrame fr) = true) by (intro Y; congruence).
+      exact (after_ok hstate dec_field enc_field enc_set_max cfg c s ph fr ec' c2 l' h' c2 (set_window st w) HS Hsl SQ Od HB KC (hf_eff_refl hstate c2) DI
+               (F_id _ _ _ _ _ _ _ SF) B2 (F_x _ _ _ _ _ _ _ SF) B4 B5 (F_wr _ _ _ _ _ _ _ SF) (F_resp _ _ _ _ _ _ _ SF) (F_send _ _ _ _ _ _ _ SF)
+               V B9 B10 B11 B12 B13 E).
+Qed.
+
+(* SETTINGS, GOAWAY (and the like) carrying a stream id *)
+Lemma K_other c s ph fr ec' c2 st l' h' :
+  kin c s ph fr ec' c2 st l' h' -> (sf_kind fr = KSettings \/ sf_kind fr = KGoAway) ->
+  feed c (IIn (RFrame fr)) = fst (tail (handle_frame dec_field cfg c2 st fr) fr (sc_closing c)) ->
+  G c s ph (RFrame fr) (feed c (IIn (RFrame fr))).
+Proof.
+  intros KI KK E. pose proof KI as [HS Hsl SQ Od HB KC SF].
+  destruct (kin_plain _ _ _ _ _ _ _ _ _ KI ltac:(destruct KK; congruence) ltac:(destruct KK; congruence))
+    as (Sl2 & Wl2 & BN & EC & Znn & NI & Fin & Hh & Tb & Hph & DI & XS).
+  assert (V : RS.verdicts s (RS.Frame (abs_frame fr)) = [RS.CE c_ProtocolError]).
+  { apply verdicts_stream_bad; [exact BN | exact Znn | destruct KK as [-> | ->]; exact I]. }
+  assert (HF : exists code, handle_frame dec_field cfg c2 st fr = (c2, st, Some (EGoAway code)) /\ code <> c_NoError /\
+                 (code = c_ProtocolError \/ (code = c_StreamClosedError /\ st_state st = SHalfClosed))).
+  { unfold handle_frame, verify_state, continuing_headers.
+    destruct XS as [[X _]|[X _]]; rewrite X; destruct KK as [K | K]; rewrite K; cbn [fkind_eqb orb andb];
+      eexists; (split; [reflexivity|]); (split; [discriminate|]); auto. }
+  destruct HF as (code & HF & NE & CD). rewrite HF, tail_goaway in E by exact NE. rewrite (F_id _ _ _ _ _ _ _ SF) in E.
+  apply (known_goaway c s ph fr ec' c2 l' h' c2 _ _ HS Hsl KC (hf_eff_refl hstate c2) E).
+  destruct CD as [-> | [-> X]].
+  - left. apply allowed_table. rewrite V. reflexivity.
+  - right. unfold known_deviation. unfold SrvRfcDefs.tbl in Tb. rewrite Tb, X.
+    replace (sf_sid fr =? 0) with false by (symmetry; apply N.eqb_neq; exact Znn).
+    destruct KK as [-> | ->]; cbn; apply orb_true_r.
+Qed.
+
+(* ---------- handleFrame on HEADERS / CONTINUATION ---------- *)
+
+(* the checks handleHeaderFrame makes before it decodes anything *)
+Definition hdr_refused (st : stream) (fr : sframe) : bool :=
+  (st_headersFinished st && (negb (fkind_eqb (sf_kind fr) KHeaders) || negb (flag_has (sf_flags fr) FL_ES)))
+  || (fkind_eqb (sf_kind fr) KHeaders && (sf_dep fr =? st_id st)).
+
+Lemma hf_hdr c st fr c3 s3 e :
+  sf_kind fr = KHeaders \/ sf_kind fr = KCont ->
+  verify_state st fr = None -> ((3 <=? sstate_rank (st_state st)) && negb (continuing_headers st fr))%bool = false ->
+  handle_frame dec_field cfg c st fr = (c3, s3, e) ->
+  same_ctl st s3 /\
+  if hdr_refused st fr then e = Some (EGoAway c_ProtocolError)
+  else match e with
+       | None => st_headersFinished s3 = flag_has (sf_flags fr) FL_EH /\ sc_discardID c3 = sc_discardID c
+       | Some (EReset code) =>
+         (code = c_ProtocolError \/ code = c_EnhanceYourCalm) /\
+         ((st_headersFinished s3 = false /\ sc_discardID c3 = (if flag_has (sf_flags fr) FL_EH then 0 else st_id st)) \/
+          (flag_has (sf_flags fr) FL_EH = true /\ st_headersFinished s3 = true /\ sc_discardID c3 = sc_discardID c))
+       | Some e => hdr_err e
+       end.
+Proof.
+  intros KK VS R3 HF. unfold handle_frame in HF. rewrite VS in HF.
+  assert (HF' : (let '(c1, s1, e0) := handle_header_frame dec_field cfg c st fr in
+                 match e0 with
+                 | Some e1 => (c1, s1, Some e1)
+                 | None =>
+                   if flag_has (sf_flags fr) FL_EH then
+                     let fin := match st_prev s1 with [] => true | _ => false end in
+                     let s2 := set_headers_finished s1 fin in
+                     if negb fin then (c1, s2, Some (EGoAway c_ProtocolError))
+                     else match validate_request_pseudo_headers s2 with Some e1 => (c1, s2, Some e1) | None => (c1, s2, None) end
+                   else (c1, s1, None)
+                 end) = (c3, s3, e)).
+  { destruct KK as [K|K]; rewrite K in HF; rewrite R3 in HF; exact HF. }
+  clear HF.
+  destruct (handle_header_frame dec_field cfg c st fr) as [[c1 s1] e0] eqn:HH.
+  pose proof (handle_header_frame_spec hstate dec_field cfg c st fr c1 s1 e0 HH) as (DD & SC & Sp).
+  (* the two early exits *)
+  unfold handle_header_frame in HH. unfold hdr_refused.
+  destruct (st_headersFinished st && (negb (fkind_eqb (sf_kind fr) KHeaders) || negb (flag_has (sf_flags fr) FL_ES)))%bool eqn:C1.
+  { inversion HH; subst c1 s1 e0. inversion HF'; subst. cbn [orb]. split; [apply same_ctl_refl | reflexivity]. }
+  destruct (fkind_eqb (sf_kind fr) KHeaders && (sf_dep fr =? st_id st))%bool eqn:C2.
+  { inversion HH; subst c1 s1 e0. inversion HF'; subst. cbn [orb]. split; [apply same_ctl_set_headers_finished | reflexivity]. }
+  clear HH. cbn [orb].
+  destruct e0 as [e0|].
+  - inversion HF'; subst c3 s3 e. split; [exact SC|].
+    destruct e0 as [code|code|]; [exact Sp | | exact I].
+    destruct Sp as (F & Cd & Di). split; [exact Cd|]. left. split; [exact F | exact Di].
+  - destruct Sp as (F & Di & Pv).
+    destruct (flag_has (sf_flags fr) FL_EH) eqn:EH.
+    + cbv zeta in HF'. rewrite (Pv eq_refl) in HF'. cbn [negb] in HF'.
+      destruct (validate_request_pseudo_headers (set_headers_finished s1 true)) as [ev|] eqn:VR; inversion HF'; subst c3 s3 e.
+      * split; [eapply same_ctl_trans; [exact SC | apply same_ctl_set_headers_finished]|].
+        assert (ev = EReset c_ProtocolError) as ->.
+        { revert VR. unfold validate_request_pseudo_headers.
+          repeat match goal with
+                 | |- context [if ?b then _ else _] => destruct b
+                 | |- context [match ?l with [] => _ | _ :: _ => _ end] => destruct l
+                 end; intro VR; inversion VR; reflexivity. }
+        split; [left; reflexivity|]. right. split; [reflexivity|]. split; [reflexivity | exact Di].
+      * split; [eapply same_ctl_trans; [exact SC | apply same_ctl_set_headers_finished]|]. split; [reflexivity | exact Di].
+    + inversion HF'; subst c3 s3 e. split; [exact SC|]. split; [exact F | exact Di].
+Qed.
+
+(* what the table must allow for a header block frame that is decoded *)
+Definition hdr_open_verdicts (s : RS.state) (fr : sframe) : Prop :=
+  RS.may_process s (RS.Frame (abs_frame fr)) = true /\
+  (forall code, code = c_ProtocolError \/ code = c_EnhanceYourCalm -> RS.allowed s (RS.Frame (abs_frame fr)) (RS.StreamErr code) = true) /\
+  (forall code, code = c_ProtocolError \/ code = c_EnhanceYourCalm \/ code = c_CompressionError \/ code = c_InternalError ->
+                RS.allowed s (RS.Frame (abs_frame fr)) (RS.ConnErr code) = true) /\
+  RS.allowed s (RS.Frame (abs_frame fr)) RS.ConnClose = true.
+
+Lemma hdr_open_of s fr l : RS.verdicts s (RS.Frame (abs_frame fr)) = RS.VProcess :: l ->
+  (forall v, In v RS.policy -> In v l) -> (forall v, In v RS.block_errors -> In v l) -> hdr_open_verdicts s fr.
+Proof.
+  intros V P B.
+  assert (AL : forall r, (exists v, In v (RS.VProcess :: l) /\ RS.admits v r = true) -> RS.allowed s (RS.Frame (abs_frame fr)) r = true).
+  { intros r (v & Hin & Ha). apply allowed_table. rewrite V. apply existsb_exists. eauto. }
+  split; [unfold RS.may_process; rewrite V; reflexivity|]. split; [|split].
+  - intros code [-> | ->]; apply AL; [exists (RS.SE c_ProtocolError) | exists (RS.SE c_EnhanceYourCalm)]; (split; [right; apply P; cbn; tauto | reflexivity]).
+  - intros code [-> | [-> | [-> | ->]]]; apply AL.
+    + exists (RS.SE c_ProtocolError). split; [right; apply P; cbn; tauto | reflexivity].
+    + exists (RS.CE c_EnhanceYourCalm). split; [right; apply B; cbn; tauto | reflexivity].
+    + exists (RS.CE c_CompressionError). split; [right; apply B; cbn; tauto | reflexivity].
+    + exists (RS.CE c_InternalError). split; [right; apply B; cbn; tauto | reflexivity].
+  - apply AL. exists (RS.SE c_ProtocolError). split; [right; apply P; cbn; tauto | reflexivity].
+Qed.
+
+Lemma K_hdr_core c s ph fr ec' c2 st l' h' :
+  kin c s ph fr ec' c2 st l' h' -> sf_kind fr = KHeaders \/ sf_kind fr = KCont ->
+  verify_state st fr = None -> ((3 <=? sstate_rank (st_state st)) && negb (continuing_headers st fr))%bool = false ->
+  RS.verdicts s (RS.Frame (abs_frame fr)) = RS.on_stream s (abs_frame fr) ->
+  (hdr_refused st fr = true -> RS.allowed s (RS.Frame (abs_frame fr)) (RS.ConnErr c_ProtocolError) = true) ->
+  (hdr_refused st fr = false -> hdr_open_verdicts s fr) ->
+  (* the phase the frame leads to, if it is decoded *)
+  (hdr_refused st fr = false ->
+   RS.request_step (ph (sf_sid fr)) (abs_frame fr) =
+   match hs_state (sf_kind fr) (flag_has (sf_flags fr) FL_ES) (st_state st), flag_has (sf_flags fr) FL_EH with
+   | SOpen, false => RS.PHead false | SOpen, true => RS.PBody | SHalfClosed, false => RS.PHead true | SHalfClosed, true => RS.PDone
+   | _, _ => RS.PBad end) ->
+  feed c (IIn (RFrame fr)) = fst (tail (handle_frame dec_field cfg c2 st fr) fr (sc_closing c)) ->
+  G c s ph (RFrame fr) (feed c (IIn (RFrame fr))).
+Proof.
+  intros KI KK VS R3 V Hrefd Hopen Hphase E. pose proof KI as [HS Hsl SQ Od HB KC SF].
+  destruct (kin_wr _ _ _ _ _ _ _ _ _ KI) as [Sl2 Wl2].
+  pose proof (ec'_hdr hstate c fr ec' SQ KK) as EC.
+  destruct (handle_frame dec_field cfg c2 st fr) as [[c3 s3] e] eqn:HF.
+  pose proof (handle_frame_eff hstate dec_field cfg c2 st fr c3 s3 e Sl2 Wl2 HF) as HE.
+  destruct (hf_hdr c2 st fr c3 s3 e KK VS R3 HF) as (SC & Sp).
+  destruct SC as (C1 & C2 & C3 & C4 & C5 & C6 & C7 & C8 & C9).
+  assert (Id3 : st_id s3 = sf_sid fr) by (rewrite C1; apply (F_id _ _ _ _ _ _ _ SF)).
+  assert (DI2 : sc_discardID c2 = sc_discardID c) by (destruct KC as (_ & _ & _ & _ & _ & _ & _ & _ & _ & _ & K11 & _); exact K11).
+  (* the stream in the specification *)
+  assert (A1 : RS.st_of s (sf_sid fr) = RS.Open \/ RS.st_of s (sf_sid fr) = RS.HalfClosedRemote \/
+               (RS.st_of s (sf_sid fr) = RS.Idle /\ sf_kind fr = KHeaders)).
+  { rewrite (F_x _ _ _ _ _ _ _ SF). destruct (F_state _ _ _ _ _ _ _ SF) as [X|[X|X]]; rewrite X; cbn [abs_st]; auto.
+    right. right. split; [reflexivity|]. apply (F_h1 _ _ _ _ _ _ _ SF X). }
+  assert (A2 : RS.st_of s (sf_sid fr) = RS.Idle -> h' = sf_sid fr /\ sc_highestID c < sf_sid fr).
+  { rewrite (F_x _ _ _ _ _ _ _ SF). intro Y. assert (X : st_state st = SIdle) by (destruct (st_state st); try discriminate; reflexivity).
+    destruct (F_h1 _ _ _ _ _ _ _ SF X) as (P1 & P2 & _). auto. }
+  assert (A3 : RS.st_of s (sf_sid fr) <> RS.Idle -> h' = sc_highestID c).
+  { rewrite (F_x _ _ _ _ _ _ _ SF). intro Y. apply (F_h2 _ _ _ _ _ _ _ SF). intro X. rewrite X in Y. apply Y. reflexivity. }
+  assert (Snd3 : send_ok s3).
+  { unfold send_ok, has_more_to_send. rewrite C6, C7, C8. exact (F_send _ _ _ _ _ _ _ SF). }
+  destruct (hdr_refused st fr) eqn:RF.
+  - (* refused before decoding *)
+    subst e. rewrite tail_goaway in E by discriminate. rewrite Id3 in E.
+    apply (known_goaway c s ph fr ec' c2 l' h' c3 _ _ HS Hsl KC HE E). left. apply Hrefd. reflexivity.
+  - destruct (Hopen eq_refl) as (Hmp & Hse & Hce & Hcc).
+    destruct e as [[code|code|]|].
+    + (* connection error *)
+      assert (NE : code <> c_NoError) by (destruct Sp as [-> | [-> | [-> | ->]]]; discriminate).
+      rewrite tail_goaway in E by exact NE. rewrite Id3 in E.
+      apply (known_goaway c s ph fr ec' c2 l' h' c3 _ _ HS Hsl KC HE E). left. apply Hce. exact Sp.
+    + (* stream error *)
+      destruct Sp as (Cd & Sp).
+      rewrite tail_reset, Id3 in E.
+      assert (A5 : st_headersFinished s3 = false \/ sc_discardID c3 = sc_discardID c).
+      { destruct Sp as [[F _]|(_ & _ & D)]; [left; exact F | right; rewrite D; exact DI2]. }
+      assert (A6 : ec' <> 0 -> st_headersFinished s3 = false).
+      { intro Hne. destruct Sp as [[F _]|(EH & _ & _)]; [exact F|]. rewrite EC, EH in Hne. exfalso. apply Hne. reflexivity. }
+      assert (A8 : sf_kind fr <> KRst) by (destruct KK; congruence).
+      exact (after_reset hstate dec_field enc_field enc_set_max cfg c s ph fr ec' c2 l' h' c3 s3 code HS Hsl SQ Od HB KC HE Id3 A1 A2 A3 Snd3 A5 A6 (Hse code Cd) A8 E).
+    + (* the decoder panicked *)
+      rewrite tail_panic in E. apply (known_panic c s ph fr ec' c2 l' h' c3 HS Hsl KC HE E). left. exact Hcc.
+    + (* decoded *)
+      destruct Sp as (Fin3 & Di3).
+      rewrite tail_ok in E.
+      assert (B1 : sc_discardID c3 = sc_discardID c) by (rewrite Di3; exact DI2).
+      assert (B2 : (st_state s3 = SIdle /\ sf_kind fr = KHeaders) \/ st_state s3 = SOpen \/ st_state s3 = SHalfClosed).
+      { rewrite C2. destruct (F_state _ _ _ _ _ _ _ SF) as [X|[X|X]]; auto. left. split; [exact X|]. apply (F_h1 _ _ _ _ _ _ _ SF X). }
+      assert (B3 : RS.st_of s (sf_sid fr) = abs_st (st_state s3)) by (rewrite C2; exact (F_x _ _ _ _ _ _ _ SF)).
+      assert (B4 : st_state s3 = SIdle -> h' = sf_sid fr /\ sc_highestID c < sf_sid fr).
+      { rewrite C2. intro X. destruct (F_h1 _ _ _ _ _ _ _ SF X) as (P1 & P2 & _). auto. }
+      assert (B5 : st_state s3 <> SIdle -> h' = sc_highestID c) by (rewrite C2; intro X; apply (F_h2 _ _ _ _ _ _ _ SF X)).
+      assert (B6 : st_weReset s3 = false) by (rewrite C3; exact (F_wr _ _ _ _ _ _ _ SF)).
+      assert (B7 : st_responded s3 = true \/ st_handlerRunning s3 = true -> st_state s3 = SHalfClosed /\ st_headersFinished s3 = true).
+      { rewrite C4, C5, C2. intro H. destruct (F_resp _ _ _ _ _ _ _ SF H) as [X Y]. exfalso.
+        (* a stream that is being answered does not take header frames *)
+        unfold verify_state in VS. rewrite X in VS. unfold continuing_headers in VS, R3. rewrite Y in VS, R3. rewrite X in R3.
+        rewrite andb_false_r in VS, R3. cbn in R3. discriminate. }
+      assert (B10 : st_headersFinished s3 = false -> ec' = sf_sid fr).
+      { rewrite Fin3, EC. destruct (flag_has (sf_flags fr) FL_EH); [discriminate | reflexivity]. }
+      assert (B11 : ec' <> 0 -> st_headersFinished s3 = false).
+      { rewrite Fin3, EC. destruct (flag_has (sf_flags fr) FL_EH); [intro Hne; exfalso; apply Hne; reflexivity | reflexivity]. }
+      assert (B12 : st_state (handle_state fr s3) <> SClosed -> RS.request_step (ph (sf_sid fr)) (abs_frame fr) = phase_of (handle_state fr s3)).
+      { intros _. rewrite phase_of_handle, C2, Fin3. apply Hphase. reflexivity. }
+      assert (B13 : sf_kind fr = KRst -> st_responded s3 = true -> st_handlerRunning s3 = false -> has_more_to_send s3 = true ->
+                    known_deviation hstate c s (RFrame fr) = true) by (intro Y; destruct KK; congruence).
+      exact (after_ok hstate dec_field enc_field enc_set_max cfg c s ph fr ec' c2 l' h' c3 s3 HS Hsl SQ Od HB KC HE B1 Id3 B2 B3 B4 B5 B6 B7 Snd3 V Hmp B10 B11 B12 B13 E).
+Qed.
+
+Lemma K_hdr c s ph fr ec' c2 st l' h' :
+  kin c s ph fr ec' c2 st l' h' -> sf_kind fr = KHeaders \/ sf_kind fr = KCont ->
+  feed c (IIn (RFrame fr)) = fst (tail (handle_frame dec_field cfg c2 st fr) fr (sc_closing c)) ->
+  G c s ph (RFrame fr) (feed c (IIn (RFrame fr))).
+Proof.
+  intros KI KK E. pose proof KI as [HS Hsl SQ Od HB KC SF].
+  assert (Znn : sf_sid fr <> 0) by (intro Z; rewrite Z in Od; discriminate).
+  pose proof (F_id _ _ _ _ _ _ _ SF) as Hid.
+  destruct KK as [KH|KCn].
+  - (* HEADERS *)
+    assert (NC : sf_kind fr <> KCont) by congruence.
+    destruct (kin_noblock _ _ _ _ _ _ _ _ _ KI NC) as (BN & E0 & _).
+    assert (V : RS.verdicts s (RS.Frame (abs_frame fr)) = RS.on_stream s (abs_frame fr)) by (apply verdicts_stream; [exact BN | exact Znn | rewrite KH; exact I]).
+    destruct (F_state _ _ _ _ _ _ _ SF) as [X|[X|X]].
+    + (* a new stream *)
+      destruct (F_h1 _ _ _ _ _ _ _ SF X) as (_ & _ & Hcl & _ & Fin & _ & _ & Hph & _).
+      assert (Hidle : RS.st_of s (sf_sid fr) = RS.Idle) by (rewrite (F_x _ _ _ _ _ _ _ SF), X; reflexivity).
+      pose proof (idle_headers_verdicts s fr BN Od KH Hidle) as IV. rewrite (S_ga _ _ _ _ HS), Hcl in IV.
+      assert (RF : hdr_refused st fr = (sf_dep fr =? sf_sid fr)).
+      { unfold hdr_refused. rewrite Fin, KH, Hid. reflexivity. }
+      apply (K_hdr_core c s ph fr ec' c2 st l' h' KI (or_introl KH)); auto.
+      * unfold verify_state. rewrite X, KH. reflexivity.
+      * rewrite X. reflexivity.
+      * rewrite RF. intro SD. apply allowed_table. rewrite IV, SD. reflexivity.
+      * rewrite RF. intro SD. rewrite SD in IV. apply (hdr_open_of s fr (RS.policy ++ RS.block_errors) IV); intros v H; apply in_or_app; auto.
+      * intros _. rewrite Hph. unfold RS.request_step, hs_state, abs_frame. cbn [RS.f_kind RS.f_es RS.f_eh]. rewrite X, KH. cbn.
+        destruct (flag_has (sf_flags fr) FL_EH), (flag_has (sf_flags fr) FL_ES); reflexivity.
+    + (* trailers *)
+      assert (NI : st_state st <> SIdle) by congruence.
+      pose proof (kin_fin _ _ _ _ _ _ _ _ _ KI NC NI) as Fin.
+      destruct (F_h2 _ _ _ _ _ _ _ SF NI) as (_ & _ & Hph & _).
+      assert (Xo : RS.st_of s (sf_sid fr) = RS.Open) by (rewrite (F_x _ _ _ _ _ _ _ SF), X; reflexivity).
+      assert (OV : RS.on_stream s (abs_frame fr) =
+                   (if negb (flag_has (sf_flags fr) FL_ES) || (sf_dep fr =? sf_sid fr) then [RS.SE c_ProtocolError] else RS.VProcess :: RS.block_errors) ++ RS.policy).
+      { unfold RS.on_stream, RS.by_state. change (RS.f_sid (abs_frame fr)) with (sf_sid fr). rewrite Xo. unfold abs_frame. cbn [RS.f_kind RS.f_es RS.f_self].
+        rewrite KH. reflexivity. }
+      assert (RF : hdr_refused st fr = (negb (flag_has (sf_flags fr) FL_ES) || (sf_dep fr =? sf_sid fr))%bool).
+      { unfold hdr_refused. rewrite Fin, KH, Hid. reflexivity. }
+      apply (K_hdr_core c s ph fr ec' c2 st l' h' KI (or_introl KH)); auto.
+      * unfold verify_state. rewrite X. reflexivity.
+      * rewrite X. reflexivity.
+      * rewrite RF. intro SD. apply allowed_table. rewrite V, OV, SD. reflexivity.
+      * rewrite RF. intro SD. rewrite SD in OV. rewrite OV in V. apply (hdr_open_of s fr (RS.block_errors ++ RS.policy) V); intros v H; apply in_or_app; auto.
+      * rewrite RF. intro SD. apply orb_false_iff in SD. destruct SD as [ES _]. apply negb_false_iff in ES.
+        rewrite Hph. unfold phase_of, RS.request_step, hs_state, abs_frame. cbn [RS.f_kind RS.f_es RS.f_eh]. rewrite X, Fin, KH, ES. cbn.
+        destruct (flag_has (sf_flags fr) FL_EH); reflexivity.
+    + (* half-closed (remote): STREAM_CLOSED *)
+      destruct (kin_wr _ _ _ _ _ _ _ _ _ KI) as [Sl2 Wl2].
+      assert (HF : handle_frame dec_field cfg c2 st fr = (c2, st, Some (EGoAway c_StreamClosedError))).
+      { unfold handle_frame, verify_state, continuing_headers. rewrite X, KH. reflexivity. }
+      rewrite HF, tail_goaway in E by discriminate. rewrite Hid in E.
+      apply (known_goaway c s ph fr ec' c2 l' h' c2 _ _ HS Hsl KC (hf_eff_refl hstate c2) E).
+      left. apply allowed_table. rewrite V. unfold RS.on_stream, RS.by_state. change (RS.f_sid (abs_frame fr)) with (sf_sid fr).
+      rewrite (F_x _ _ _ _ _ _ _ SF), X. unfold abs_frame. cbn [RS.f_kind abs_st]. rewrite KH. reflexivity.
+  - (* CONTINUATION *)
+    destruct SQ as [(_ & K & _)|(E0 & _ & Sd & _)]; [congruence|].
+    assert (BS : RS.block s = Some (sf_sid fr)).
+    { rewrite (block_of_ec hstate c s (S_blk _ _ _ _ HS)). replace (sc_expectCont c =? 0) with false by (symmetry; apply N.eqb_neq; exact E0). congruence. }
+    assert (V : RS.verdicts s (RS.Frame (abs_frame fr)) = RS.on_stream s (abs_frame fr)) by (apply verdicts_cont; assumption).
+    assert (NI : st_state st <> SIdle).
+    { intro X. destruct (F_h1 _ _ _ _ _ _ _ SF X) as (_ & _ & _ & KHx & _). congruence. }
+    destruct (F_h2 _ _ _ _ _ _ _ SF NI) as (_ & _ & Hph & _ & Fe). pose proof (Fe (eq_sym Sd)) as Fin.
+    assert (RF : hdr_refused st fr = false) by (unfold hdr_refused; rewrite Fin, KCn; reflexivity).
+    assert (XS : (st_state st = SOpen /\ RS.st_of s (sf_sid fr) = RS.Open) \/ (st_state st = SHalfClosed /\ RS.st_of s (sf_sid fr) = RS.HalfClosedRemote)).
+    { destruct (F_state _ _ _ _ _ _ _ SF) as [X|[X|X]]; [congruence | left | right]; (split; [exact X|]); rewrite (F_x _ _ _ _ _ _ _ SF), X; reflexivity. }
+    assert (OV : RS.on_stream s (abs_frame fr) = (RS.VProcess :: RS.block_errors) ++ RS.policy).
+    { unfold RS.on_stream, RS.by_state. change (RS.f_sid (abs_frame fr)) with (sf_sid fr).
+      destruct XS as [[_ X]|[_ X]]; rewrite X; unfold abs_frame; cbn [RS.f_kind]; rewrite KCn; reflexivity. }
+    apply (K_hdr_core c s ph fr ec' c2 st l' h' KI (or_intror KCn)); auto.
+    + unfold verify_state, continuing_headers. rewrite KCn, Fin. destruct XS as [[X _]|[X _]]; rewrite X; reflexivity.
+    + unfold continuing_headers. rewrite KCn, Fin. destruct XS as [[X _]|[X _]]; rewrite X; reflexivity.
+    + rewrite RF. discriminate.
+    + intros _. rewrite OV in V. apply (hdr_open_of s fr (RS.block_errors ++ RS.policy) V); intros v H; apply in_or_app; auto.
+    + intros _. rewrite Hph. unfold phase_of, RS.request_step, hs_state, abs_frame. cbn [RS.f_kind RS.f_es RS.f_eh]. rewrite Fin, KCn. cbn.
+      destruct XS as [[X _]|[X _]]; rewrite X; cbn; destruct (flag_has (sf_flags fr) FL_EH); reflexivity.
+Qed.
+
+(* ---------- a frame on a stream: putting the pieces together ---------- *)
+
+Lemma K_any c s ph fr ec' c2 st l' h' :
+  kin c s ph fr ec' c2 st l' h' -> match sf_kind fr with KPing | KPush => False | _ => True end ->
+  feed c (IIn (RFrame fr)) = fst (tail (handle_frame dec_field cfg c2 st fr) fr (sc_closing c)) ->
+  G c s ph (RFrame fr) (feed c (IIn (RFrame fr))).
+Proof.
+  intros KI Kok E. destruct (sf_kind fr) eqn:KK; try contradiction.
+  - apply (K_data c s ph fr ec' c2 st l' h' KI KK E).
+  - apply (K_hdr c s ph fr ec' c2 st l' h' KI (or_introl KK) E).
+  - apply (K_prio c s ph fr ec' c2 st l' h' KI KK E).
+  - apply (K_rst c s ph fr ec' c2 st l' h' KI KK E).
+  - apply (K_other c s ph fr ec' c2 st l' h' KI (or_introl KK) E).
+  - apply (K_other c s ph fr ec' c2 st l' h' KI (or_intror KK) E).
+  - apply (K_winupd c s ph fr ec' c2 st l' h' KI KK E).
+  - apply (K_hdr c s ph fr ec' c2 st l' h' KI (or_intror KK) E).
+Qed.
+
+(* a stream made for a frame that cannot open one: PROTOCOL_ERROR *)
+Lemma K_created_other c s ph fr ec' c2 st :
+  Sim c s ph -> sc_sl_done c = false -> seq_ok c fr ec' -> N.odd (sf_sid fr) = true -> tbl c (sf_sid fr) = None ->
+  sf_kind fr <> KHeaders -> match sf_kind fr with KPing | KPush => False | _ => True end ->
+  (fkind_eqb (sf_kind fr) KCont && negb (sc_discardID c =? 0) && (sf_sid fr =? sc_discardID c) = false)%bool ->
+  created hstate (upd_expectCont c ec') fr c2 st ->
+  feed c (IIn (RFrame fr)) = fst (sl_known hstate dec_field cfg c2 st fr (sc_closing c)) ->
+  G c s ph (RFrame fr) (feed c (IIn (RFrame fr))).
+Proof.
+  intros HS Hsl SQ Od Tn NH Kok ND (Hst & Rn & Ll & Hc) E.
+  pose proof (S_aux _ _ _ _ HS) as [AT AH].
+  assert (Znn : sf_sid fr <> 0) by (intro Z; rewrite Z in Od; discriminate).
+  assert (C2 : c2 = upd_strms (upd_expectCont c ec') (sc_strms c ++ [st])).
+  { revert Hc Kok NH. destruct (sf_kind fr); intros; try contradiction; try congruence; exact Hc. }
+  assert (KC : kctx c ec' (sc_lastID c) (sc_highestID c) c2) by (rewrite C2; repeat split).
+  assert (Sst : st_state st = SIdle /\ st_id st = sf_sid fr) by (rewrite Hst; split; reflexivity).
+  destruct Sst as [X Hid].
+  assert (HF : handle_frame dec_field cfg c2 st fr = (c2, st, Some (EGoAway c_ProtocolError))).
+  { unfold handle_frame, verify_state. rewrite X. revert Hc Kok NH. destruct (sf_kind fr); intros; try contradiction; try congruence; reflexivity. }
+  rewrite sl_known_tail in E by (intro K; congruence).
+  rewrite HF, tail_goaway in E by discriminate. rewrite Hid in E.
+  apply (known_goaway c s ph fr ec' c2 _ _ c2 _ _ HS Hsl KC (hf_eff_refl hstate c2) E).
+  (* the specification: idle, or closed long ago *)
+  destruct (unknown_state hstate dec_field enc_set_max c s ph _ HS Od Tn) as [Hle Hgt].
+  change (ring_find (upd_expectCont c ec') (sf_sid fr)) with (ring_find c (sf_sid fr)) in Rn.
+  assert (St : RS.st_of s (sf_sid fr) = RS.Idle \/ RS.st_of s (sf_sid fr) = RS.Closed RS.Implicit).
+  { pose proof (S_str _ _ _ _ HS _ Od) as R. rewrite (view_none hstate c _ Tn), Rn in R.
+    destruct (sf_sid fr <=? sc_highestID c); cbn [rel] in R; auto. }
+  destruct SQ as [(E0 & K & _)|(E0 & K & Sd & _)].
+  - assert (BN : RS.block s = None) by (rewrite (block_of_ec hstate c s (S_blk _ _ _ _ HS)), E0; reflexivity).
+    left. apply allowed_table.
+    revert Hc Kok NH K. destruct (sf_kind fr) eqn:KK; intros; try contradiction; try congruence;
+      try (rewrite verdicts_stream_bad; [reflexivity | exact BN | exact Znn | rewrite KK; exact I]);
+      (rewrite verdicts_stream; [|exact BN | exact Znn | rewrite KK; exact I];
+       unfold RS.on_stream, RS.by_state, abs_frame; cbn [RS.f_kind RS.f_sid]; destruct St as [-> | ->]; rewrite KK; reflexivity).
+  - (* CONTINUATION: the HEADERS of this block was a connection error *)
+    left. apply allowed_dead; [|reflexivity].
+    destruct (S_cont _ _ _ _ HS E0) as [Y|Y]; [rewrite <- Sd; exact Tn | | exact Y].
+    exfalso. rewrite K in ND. cbn [fkind_eqb andb] in ND. rewrite Y, <- Sd in ND.
+    replace (sf_sid fr =? 0) with false in ND by (symmetry; apply N.eqb_neq; exact Znn). rewrite N.eqb_refl in ND. discriminate.
+Qed.
+
 End Frame.
